@@ -109,23 +109,42 @@ example : (⟨true, [Comp.nm 0, Comp.up, Comp.nm 1]⟩ : P Nat).abs = true ∧ (
 
 /-- **survive_table** — whatever the flags and whichever steps fail: the artifacts directory is
 still there at the end iff (the play failed ∨ `-k`) and the run directory was not erased; the
-run directory is erased iff (`--clear` ∨ an upload URL) and the program did not fail. -/
+run directory is erased iff (`--clear` ∨ an upload URL) and the program did not fail — where an explicit
+`--clear=false` next to an upload URL keeps the directory (`initArgs` lets the upload imply `--clear` only when the
+flag was not given: `removeAll`). -/
 theorem survive_table (f : Flags) (e : Faults) :
     ((runEnd f e).artifacts = true ↔
         ((runEnd f e).playFailed = true ∨ f.k = true) ∧
-          ¬ ((f.clear = true ∨ f.upload = true) ∧ (runEnd f e).exitNonZero = false))
+          ¬ (removeAll f = true ∧ (runEnd f e).exitNonZero = false))
     ∧ ((runEnd f e).runDir = false ↔
-        (f.clear = true ∨ f.upload = true) ∧ (runEnd f e).exitNonZero = false) := by
+        removeAll f = true ∧ (runEnd f e).exitNonZero = false) := by
   obtain ⟨k, c, u, s⟩ := f
   obtain ⟨p, i, pl, up⟩ := e
-  cases k <;> cases c <;> cases u <;> cases s <;> cases p <;> cases i <;> cases pl <;> cases up <;> decide
+  rcases c with _ | c
+  · cases k <;> cases u <;> cases s <;> cases p <;> cases i <;> cases pl <;> cases up <;> decide
+  · cases k <;> (rcases c with _ | (_ | _)) <;> cases u <;> cases s <;> cases p <;> cases i <;> cases pl <;> cases up <;> decide
+
+/-- … in the words of the property, for every command line that does not say `--clear=false` -/
+theorem removeAll_plain (f : Flags) (h : f.clear ≠ some false) :
+    removeAll f = true ↔ (f.clear = some true ∨ f.upload = true) := by
+  obtain ⟨k, c, u, s⟩ := f
+  rcases c with _ | c
+  · simp [removeAll]
+  · cases c <;> simp_all [removeAll]
+
+/-- `--clear=false` keeps the run directory, upload or not, whatever fails -/
+theorem explicit_no_clear_keeps (f : Flags) (e : Faults) (h : f.clear = some false) : (runEnd f e).runDir = true := by
+  obtain ⟨k, c, u, s⟩ := f
+  obtain ⟨p, i, pl, up⟩ := e
+  simp only at h; subst h
+  cases k <;> cases u <;> cases s <;> cases p <;> cases i <;> cases pl <;> cases up <;> decide
 
 /-- the executable form used as oracle on the real tree agrees with the statement above -/
 theorem survive_spec_holds (f : Flags) (e : Faults) :
     surviveSpec f (runEnd f e).playFailed (runEnd f e).exitNonZero (runEnd f e).artifacts (runEnd f e).runDir = true := by
   obtain ⟨k, c, u, s⟩ := f
   obtain ⟨p, i, pl, up⟩ := e
-  cases k <;> cases c <;> cases u <;> cases s <;> cases p <;> cases i <;> cases pl <;> cases up <;> decide
+  cases k <;> (rcases c with _ | (_ | _)) <;> cases u <;> cases s <;> cases p <;> cases i <;> cases pl <;> cases up <;> decide
 
 /-- **what is uploaded** holds the artifacts iff the play failed or `-k` was given (the manual erases the artifacts,
 step 4, before it uploads, step 5) -/
@@ -134,12 +153,12 @@ theorem uploaded_artifacts (f : Flags) (e : Faults) (h : (runEnd f e).uploaded =
   obtain ⟨k, c, u, s⟩ := f
   obtain ⟨p, i, pl, up⟩ := e
   revert h
-  cases k <;> cases c <;> cases u <;> cases s <;> cases p <;> cases i <;> cases pl <;> cases up <;> decide
+  cases k <;> (rcases c with _ | (_ | _)) <;> cases u <;> cases s <;> cases p <;> cases i <;> cases pl <;> cases up <;> decide
 
 /-- before the repair a clean play without `-k` was uploaded with its artifacts (witness) -/
 theorem old_uploads_artifacts_of_a_clean_play :
-    (runEndOld ⟨false, false, true, false⟩ ⟨false, false, false, false⟩).uploadedArtifacts = true ∧
-    (runEnd ⟨false, false, true, false⟩ ⟨false, false, false, false⟩).uploadedArtifacts = false := by decide
+    (runEndOld ⟨false, none, true, false⟩ ⟨false, false, false, false⟩).uploadedArtifacts = true ∧
+    (runEnd ⟨false, none, true, false⟩ ⟨false, false, false, false⟩).uploadedArtifacts = false := by decide
 
 /-- a failed run never loses its results: no flag erases the run directory or result.js of a run that exits with a
 non-zero status, nor the artifacts of a play that failed -/
@@ -149,7 +168,7 @@ theorem failure_keeps_everything (f : Flags) (e : Faults) (h : (runEnd f e).exit
   obtain ⟨k, c, u, s⟩ := f
   obtain ⟨p, i, pl, up⟩ := e
   revert h
-  cases k <;> cases c <;> cases u <;> cases s <;> cases p <;> cases i <;> cases pl <;> cases up <;> decide
+  cases k <;> (rcases c with _ | (_ | _)) <;> cases u <;> cases s <;> cases p <;> cases i <;> cases pl <;> cases up <;> decide
 
 example : (runEnd ⟨false, true, false, false⟩ ⟨true, false, false, false⟩).exitNonZero = true := by decide
 
@@ -160,7 +179,7 @@ theorem kept_run_dir_is_complete (f : Flags) (e : Faults) (h : (runEnd f e).runD
   obtain ⟨k, c, u, s⟩ := f
   obtain ⟨p, i, pl, up⟩ := e
   revert h
-  cases k <;> cases c <;> cases u <;> cases s <;> cases p <;> cases i <;> cases pl <;> cases up <;> decide
+  cases k <;> (rcases c with _ | (_ | _)) <;> cases u <;> cases s <;> cases p <;> cases i <;> cases pl <;> cases up <;> decide
 
 example : (runEnd ⟨false, false, false, false⟩ ⟨false, false, false, false⟩).runDir = true := by decide
 
@@ -172,7 +191,7 @@ theorem foul_flag_eq_exit (f : Flags) (e : Faults) (hp : e.plot = false) (hu : e
   obtain ⟨p, i, pl, up⟩ := e
   simp only at hp hu
   subst hp hu
-  cases k <;> cases c <;> cases u <;> cases s <;> cases p <;> cases i <;> decide
+  cases k <;> (rcases c with _ | (_ | _)) <;> cases u <;> cases s <;> cases p <;> cases i <;> decide
 
 example : (⟨true, false, false, false⟩ : Faults).plot = false ∧ (⟨true, false, false, false⟩ : Faults).upload = false := by decide
 
